@@ -404,3 +404,69 @@
         for f in failures.iter().take(5) { println!("FAILING INPUT: {}", f); }
         assert!(failures.is_empty());
     }
+
+    /// C05, determinism and alignment: the same lexicon and matrix compiled twice with the same timestamp give byte-identical
+    /// dictionaries (system and user), and a dictionary loaded from a buffer at every alignment modulo 4 analyses every text like the
+    /// one loaded from the file and reports the same fields for every word
+    #[test]
+    fn verif_oracle_deterministic_and_alignment_independent() {
+        if !want("C05") { return; }
+        use crate::dic::storage::{Storage, SudachiDicData};
+        let stamp = std::time::UNIX_EPOCH + std::time::Duration::from_secs(1_600_000_000);
+        let build_sys = || -> Vec<u8> {
+            let mut dic = DictBuilder::new_system();
+            dic.set_compile_time(stamp);
+            dic.read_conn(super::super::MATRIX_10_10).unwrap();
+            dic.read_lexicon(SYSTEM_LEX).unwrap();
+            dic.resolve().unwrap();
+            let mut out = Vec::new(); dic.compile(&mut out).unwrap(); out
+        };
+        let mut failures = Vec::new();
+        let (s1, s2) = (build_sys(), build_sys());
+        if s1 != s2 { failures.push(format!("the system dictionary compiled twice from the same inputs differs (first difference at byte {:?}, lengths {} / {})", s1.iter().zip(s2.iter()).position(|(a, b)| a != b), s1.len(), s2.len())); }
+        let mut cfgb = ConfigTestSupport::new();
+        cfgb.make_system().write_all(&s1).unwrap();
+        let sys = JapaneseDictionary::from_cfg(&cfgb.config()).unwrap();
+        let build_user = |lex: &[u8]| -> Vec<u8> {
+            let mut ud = DictBuilder::new_user(&sys);
+            ud.set_compile_time(stamp);
+            ud.read_lexicon(lex).unwrap();
+            ud.resolve().unwrap();
+            let mut out = Vec::new(); ud.compile(&mut out).unwrap(); out
+        };
+        for (name, lex) in [("user1", USER1_LEX), ("user2", USER2_LEX)] {
+            let (u1, u2) = (build_user(lex), build_user(lex));
+            if u1 != u2 { failures.push(format!("the user dictionary {} compiled twice from the same inputs differs (first difference at byte {:?})", name, u1.iter().zip(u2.iter()).position(|(a, b)| a != b))); }
+        }
+        // alignment
+        let cfg = cfgb.config();
+        let texts: Vec<String> = texts().into_iter().take(400).collect();
+        let analyse = |jd: &JapaneseDictionary| -> Vec<Vec<(usize, usize, String, u16, String, String, String, u32)>> {
+            texts.iter().map(|t| {
+                let mut tok = StatefulTokenizer::new(jd, Mode::A);
+                tok.reset().push_str(t);
+                match tok.do_tokenize() { Ok(_) => { let mut ms = MorphemeList::empty(jd); ms.collect_results(&mut tok).unwrap(); ms.iter().map(|m| (m.begin(), m.end(), m.surface().to_string(), m.part_of_speech_id(), m.normalized_form().to_string(), m.dictionary_form().to_string(), m.reading_form().to_string(), m.word_id().as_raw())).collect() }, Err(_) => Vec::new() }
+            }).collect()
+        };
+        let reference = analyse(&sys);
+        for off in 0usize..4 {
+            let mut buf = vec![0u8; s1.len() + 8];
+            let base = buf.as_ptr() as usize;
+            let shift = (4 - base % 4) % 4 + off;         // address = off modulo 4
+            buf[shift..shift + s1.len()].copy_from_slice(&s1);
+            let leaked: &'static [u8] = Box::leak(buf.into_boxed_slice());
+            let slice: &'static [u8] = &leaked[shift..shift + s1.len()];
+            let r = std::panic::catch_unwind(|| {
+                let jd = JapaneseDictionary::from_cfg_storage(&cfg, SudachiDicData::new(Storage::Borrowed(slice))).map_err(|e| format!("{:?}", e))?;
+                Ok::<_, String>(analyse(&jd))
+            });
+            match r {
+                Ok(Ok(got)) => { if let Some(i) = (0..texts.len()).find(|i| got[*i] != reference[*i]) { failures.push(format!("dictionary loaded at an address = {} modulo 4: {:?} is analysed as {:?}, from the file as {:?}", off, texts[i], got[i], reference[i])); } }
+                Ok(Err(e)) => failures.push(format!("dictionary loaded at an address = {} modulo 4 does not load: {}", off, e)),
+                Err(_) => failures.push(format!("dictionary loaded at an address = {} modulo 4: loading or analysis panics", off)),
+            }
+        }
+        println!("verif_oracle_deterministic_and_alignment_independent: {} failures", failures.len());
+        for f in failures.iter().take(5) { println!("FAILING INPUT: {}", f); }
+        assert!(failures.is_empty());
+    }
